@@ -471,6 +471,32 @@ Proof.
   intros. cbn [step]. unfold load_stale. rewrite H. rewrite serve_uncacheable by reflexivity. reflexivity.
 Qed.
 
+(* ... stale tile, source fails with a fill image that authorises stale tiles: the stored tile is served with its own
+   validators (200 + stored bytes or 304), exactly like a request that finds it fresh; nothing is written *)
+Lemma step_refresh_authorize_stale : forall h tps ma st svc k inm ims body e,
+  lookup st k = Some e ->
+  step h tps ma st (Refresh svc k inm ims (UFillStale body)) = step h tps ma st (Req svc k inm ims UErr).
+Proof.
+  intros. cbn [step]. unfold load_stale, load. rewrite H. reflexivity.
+Qed.
+
+Lemma step_refresh_authorize_stale_answer : forall h tps ma st svc k inm ims body e st' r,
+  lookup st k = Some e ->
+  step h tps ma st (Refresh svc k inm ims (UFillStale body)) = (st', Some (Resp r)) ->
+  st' = st /\ answer_for h tps e r.
+Proof.
+  intros h tps ma st svc k inm ims body e st' r H Hs.
+  rewrite (step_refresh_authorize_stale h tps ma st svc k inm ims body e H) in Hs.
+  exact (step_req_cached_answer h tps ma st svc k inm ims UErr e st' r H Hs).
+Qed.
+
+Lemma step_fill_stale_uncached : forall h tps ma st svc k inm ims body,
+  lookup st k = None ->
+  step h tps ma st (Req svc k inm ims (UFillStale body)) = (st, Some (Resp (nostore_resp body))).
+Proof.
+  intros. cbn [step]. unfold load. rewrite H. rewrite serve_uncacheable by reflexivity. reflexivity.
+Qed.
+
 (* ... and (repair of C20-L3) the answer of the refreshing request is the answer for the NEW content: the same as
    the answer that creates a tile, with the validators of (now, size) *)
 Lemma step_refresh_answer : forall h tps ma st svc k inm ims body now size stored e,
